@@ -89,6 +89,8 @@ pub fn names() -> Vec<Vec<u8>> {
         b".zinoma/t.csv".to_vec(),
         b"d/.zinoma/t.csv".to_vec(),
         b"d/a.csv".to_vec(),
+        b"top/a.csv".to_vec(),
+        b"top/b.txt".to_vec(),
         b"d/new/a.csv".to_vec(),
         b"..csv".to_vec(),
         b"a.csv.swp".to_vec(),
@@ -99,7 +101,14 @@ pub fn names() -> Vec<Vec<u8>> {
 
 /// extension groups: (label, resources as (sub-path, extensions))
 pub fn groups() -> Vec<(&'static str, Vec<(&'static str, Option<Vec<&'static str>>)>)> {
-    vec![("no filter", vec![("", None)]), ("[csv]", vec![("", Some(vec![".csv"]))]), ("two resources: d/[csv] and top/[txt]", vec![("d", Some(vec![".csv"])), ("top", Some(vec![".txt"]))])]
+    vec![
+        ("no filter", vec![("", None)]),
+        ("[csv]", vec![("", Some(vec![".csv"]))]),
+        ("two resources: d/[csv] and top/[txt]", vec![("d", Some(vec![".csv"])), ("top", Some(vec![".txt"]))]),
+        // two separate resources sharing the same filter (they end up in the same watcher)
+        ("two resources, both unfiltered: d/ and top/", vec![("d", None), ("top", None)]),
+        ("two resources, both [csv]: top/ and d/", vec![("top", Some(vec![".csv"])), ("d", Some(vec![".csv"]))]),
+    ]
 }
 
 fn is_tmp(name: &[u8]) -> bool {
@@ -154,7 +163,7 @@ pub fn cases(thorough: bool) -> Vec<WCase> {
         out.push(WCase { group: g, ops: vec![WOp::Mkdir(b"fresh.csv".to_vec())] });
     }
     // sequences of two operations over a reduced name set
-    let reduced: Vec<Vec<u8>> = if thorough { ns.clone() } else { vec![b"a.csv".to_vec(), b"a.txt".to_vec(), b"a.csv~".to_vec(), b".zinoma/t.csv".to_vec(), b"bad\xFF.csv".to_vec(), b"d/a.csv".to_vec()] };
+    let reduced: Vec<Vec<u8>> = if thorough { ns.clone() } else { vec![b"a.csv".to_vec(), b"a.txt".to_vec(), b"a.csv~".to_vec(), b".zinoma/t.csv".to_vec(), b"bad\xFF.csv".to_vec(), b"d/a.csv".to_vec(), b"top/a.csv".to_vec()] };
     let two = |n: &Vec<u8>| vec![WOp::Create(n.clone()), WOp::Modify(n.clone()), WOp::Delete(n.clone())];
     for g in 0..groups().len() {
         for n1 in &reduced {
@@ -190,6 +199,7 @@ fn wait_for_sentinel(id: &str, seq: usize, root: &Path, group_idx: usize) -> Res
     // pipeline must not be mistaken for this one); one per watched path of the group
     let which: Vec<String> = match group_idx {
         2 => vec![format!("d/zzsentinel{}.csv", seq), format!("top/zzsentinel{}.txt", seq)],
+        3 | 4 => vec![format!("d/zzsentinel{}.csv", seq), format!("top/zzsentinel{}.csv", seq)],
         _ => vec![format!("zzsentinel{}.csv", seq)],
     };
     for s in &which {
@@ -204,8 +214,8 @@ fn wait_for_sentinel(id: &str, seq: usize, root: &Path, group_idx: usize) -> Res
                 return Ok(());
             }
         }
-        if t0.elapsed() > std::time::Duration::from_secs(5) {
-            return Err("sentinel not reported within 5 s".into());
+        if t0.elapsed() > std::time::Duration::from_secs(3) {
+            return Err("sentinel not reported within 3 s".into());
         }
         std::thread::sleep(std::time::Duration::from_micros(300));
     }
@@ -312,8 +322,14 @@ pub fn eval_case(idx: usize, c: &WCase) -> (String, String) {
     };
     // control: the sentinel alone is reported, and nothing else
     if let Err(e) = wait_for_sentinel(&ids, 0, &root, c.group) {
+        let new_panics: Vec<String> = PANICS.lock().unwrap()[panics_before..].to_vec();
+        let _ = std::panic::catch_unwind(std::panic::AssertUnwindSafe(move || drop(watcher)));
         let _ = std::fs::remove_dir_all(&root);
-        return ("MACHINERY".into(), format!("control failed ({}): {}", glabel, e));
+        if !new_panics.is_empty() {
+            return ("KILLED".into(), format!("group {}: the watcher died right after its creation: {}", glabel, new_panics.join(" | ")));
+        }
+        // the sentinel is itself a file created under every declared path of the group: not reporting it is a miss
+        return ("MISSED-SENTINEL".into(), format!("group {}: a file created under each declared input path was not reported for at least one of them ({})", glabel, e));
     }
     while rx.try_recv().is_ok() {}
     let mark = LOG.lock().unwrap().len();
@@ -380,9 +396,18 @@ pub fn eval_case(idx: usize, c: &WCase) -> (String, String) {
 pub fn worker(thorough: bool, start: usize, end: usize) {
     install_capture();
     let cs = cases(thorough);
+    let mut sentinel_failures: BTreeMap<usize, u32> = BTreeMap::new();
     for idx in start..end.min(cs.len()) {
         emit_case(idx);
+        // a group whose declared paths are not even watched fails every case the same way: two witnesses are enough
+        if sentinel_failures.get(&cs[idx].group).cloned().unwrap_or(0) >= 2 {
+            emit_res(idx, "SKIP", "the control of this group already failed twice in this worker");
+            continue;
+        }
         let (v, d) = eval_case(idx, &cs[idx]);
+        if v == "MISSED-SENTINEL" {
+            *sentinel_failures.entry(cs[idx].group).or_insert(0) += 1;
+        }
         emit_res(idx, &v, &d);
         if v == "KILLED" {
             // a dead watcher thread leaks its inotify instance: continue in a fresh process
@@ -405,8 +430,17 @@ pub fn check_c16(rep: &mut Report) {
     // real inotify under load: a verdict other than OK is reported only if the same case gives the same
     // verdict twice more, alone, in fresh processes; otherwise it is recorded as a flake of the machinery
     let mut flakes = vec![];
+    let mut confirmed_per_class: BTreeMap<String, u32> = BTreeMap::new();
     for r in res.iter_mut() {
         if r.verdict != "OK" && r.verdict != "SKIP" {
+            // confirm at most three cases per (verdict, group): the others of the class are not reported separately anyway
+            let class = format!("{}|{}", r.verdict, cs[r.idx].group);
+            let n = confirmed_per_class.entry(class).or_insert(0);
+            *n += 1;
+            if *n > 3 {
+                r.verdict = "SKIP".into();
+                continue;
+            }
             let a = rerun_case("c16", &rep.tier, r.idx);
             let b = rerun_case("c16", &rep.tier, r.idx);
             if a.verdict != r.verdict || b.verdict != r.verdict {
@@ -448,6 +482,9 @@ pub fn check_c16(rep: &mut Report) {
             "SKIP" => skipped += 1,
             "KILLED" | "DIED" | "PANIC" => {
                 classes.entry(format!("watcher-killed-by: {}", name_class(c))).or_insert((r.detail.clone(), replay));
+            }
+            "MISSED-SENTINEL" => {
+                classes.entry(format!("declared-path-not-watched [{}]", gs[c.group].0)).or_insert((r.detail.clone(), replay));
             }
             "MISSED" => {
                 classes.entry(format!("relevant-change-not-reported: {} {} [{}]", op_class(c), name_class(c), gs[c.group].0)).or_insert((r.detail.clone(), replay));
